@@ -1,0 +1,50 @@
+//go:build verif
+// +build verif
+
+package parse
+
+// Hooks for the verification harness (build tag "verif"). They only add
+// observability: each is a function variable the harness may set before it
+// calls into the package. They are never set by the library itself.
+var (
+	// VerifLexStep is called for every tokeniser step (next, emit, errorf).
+	VerifLexStep func()
+	// VerifLexStart and VerifLexExit bracket the tokeniser goroutine.
+	VerifLexStart func()
+	VerifLexExit  func()
+	// VerifParseStep is called for every token read by the parser,
+	// including re-reads of pushed-back tokens.
+	VerifParseStep func()
+	// VerifTraverse is called between entering a node and traversing its children.
+	VerifTraverse func(Node)
+)
+
+func verifLexStep() {
+	if VerifLexStep != nil {
+		VerifLexStep()
+	}
+}
+
+func verifLexStart() {
+	if VerifLexStart != nil {
+		VerifLexStart()
+	}
+}
+
+func verifLexExit() {
+	if VerifLexExit != nil {
+		VerifLexExit()
+	}
+}
+
+func verifParseStep() {
+	if VerifParseStep != nil {
+		VerifParseStep()
+	}
+}
+
+func verifTraverse(n Node) {
+	if VerifTraverse != nil {
+		VerifTraverse(n)
+	}
+}
